@@ -653,7 +653,7 @@ func c17f4Rules(r *an.Run) {
 
 	// ------------------------------------------------------------ e946472
 	r.Obl("dust-predicates-negate-the-builders-keep-condition", "MIRROR",
-		"LocalBalanceDust / RemoteBalanceDust return `credited balance < dust limit` where CreateCooperativeCloseTx keeps the output iff `balance >= dust limit` (the exact negation, same operand order), the dust limit is the one CreateCloseProposal hands the builder for that party (and is the second result), and the credited balance is that party's commitment balance plus, exactly when that party is the channel initiator, the commitment fee and, exactly when the channel has anchors as well, the anchor credit of CoopCloseBalance; nothing else writes the balance",
+		"LocalBalanceDust / RemoteBalanceDust return `credited balance < dust limit` where CreateCooperativeCloseTx keeps the output iff `balance >= dust limit` (the exact negation, same operand order), the dust limit is the one CreateCloseProposal hands the builder for that party when the script-dust-limits option is not set - the limit of that party coopCloseDustLimits, whose results the proposal passes on in order, returns for the channel basis; the legacy closer, the only user of these predicates, never sets that option - (and is the second result), and the credited balance is that party's commitment balance plus, exactly when that party is the channel initiator, the commitment fee and, exactly when the channel has anchors as well, the anchor credit of CoopCloseBalance; nothing else writes the balance",
 		"the legacy closer sizes its ideal and maximum fee from these predicates: a predicate that disagrees with the builder (raw balance, or `<=`) prices a transaction with one output fewer or more than the one that is signed", 10,
 		func(o *an.Obl) {
 			b := p.Func(lw + "CreateCooperativeCloseTx")
@@ -662,7 +662,37 @@ func c17f4Rules(r *an.Run) {
 			if !needExactly(o, prop, "CreateCooperativeCloseTx", tx, 1) {
 				return
 			}
-			txArgs := prop.ArgCanon(tx[0])
+			// the dust limits the builder is handed without the script-dust-limits
+			// option: the channel basis of coopCloseDustLimits, whose results
+			// the proposal passes on in order
+			_, legacyBasis, okBases := c17f5DustBases(p)
+			if !okBases {
+				o.FailAt(c17f5Helper+"#dust-bases", "", "cannot read the dust limits coopCloseDustLimits returns when the script-dust-limits option is not set (one return under each outcome of the one test of that flag)")
+				return
+			}
+			var txArgs [3]string
+			for idx := 1; idx <= 2; idx++ {
+				id, _ := ast.Unparen(tx[0].Node.(*ast.CallExpr).Args[idx]).(*ast.Ident)
+				var call *ast.CallExpr
+				k := -1
+				if id != nil {
+					call, k = prop.UniqueCallDef(id)
+				}
+				if call == nil || k != idx-1 || an.CalleeID(prop.Info(), call) != c17f5Helper {
+					o.FailAt(prop.ID+"#builder-limit-"+fmt.Sprint(idx), tx[0].Where(), "CreateCloseProposal hands the builder %s as dust limit (argument %d), expected result #%d of coopCloseDustLimits", prop.Canon(tx[0].Node.(*ast.CallExpr).Args[idx]), idx, idx-1)
+					return
+				}
+				txArgs[idx] = legacyBasis[idx-1]
+			}
+			o.Site("without the script-dust-limits option the builder is handed (%s, %s)", txArgs[1], txArgs[2])
+			// the users of the predicates never build by the script basis
+			if obj := p.LookupObj("lnwallet", "WithScriptDustLimits"); obj != nil {
+				for _, ref := range p.RefsTo(obj, false) {
+					if ref.Fn != nil && strings.HasPrefix(ref.Fn.Root().ID, "lnwallet/chancloser.ChanCloser.") {
+						o.FailAt(ref.Fn.Root().ID+"#legacy-closer-sets-script-dust-limits", ref.Where, "%s places the script-dust-limits option: the legacy closer prices its fee by LocalBalanceDust / RemoteBalanceDust, which judge by the channel's dust limits", ref.Fn.Root().ID)
+					}
+				}
+			}
 			// the anchor credit of CoopCloseBalance
 			anchor := ""
 			cb := p.Func(lw + "CoopCloseBalance")
